@@ -10,7 +10,10 @@ D4 correlation keys / channel templates agree between master and worker, and the
    per-job values come from this job's message; the job-id annotation of the published context is the last
    write of that key on every path to the status publish,
 D5 the transport's hand-over rules (C14) re-applied,
-D6 the scan the master/worker message loops drive cannot be killed by a concurrent publisher.
+D6 the scan the master/worker message loops drive cannot be killed by a concurrent publisher,
+D7 the pending-futures map (written by enqueue on the callers' threads, read by the master loop) is never
+   traversed live: a for statement / comprehension / callback walk over it is over a one-call snapshot or
+   under a lock every mutation holds.
 
 All function bodies are analysed in their normal form (sa/normal.py: private helpers inlined,
 named sub-expressions substituted), and the constructs are found by role (what they read /
@@ -1179,6 +1182,9 @@ def run(repo: Repo, R: Report) -> None:
     # ------------------------------------------------------------------ D6 the loops' scan survives publishers
     scan_rule(repo, R, rf, wl, (wrel, wqn))
 
+    # ------------------------------------------------------------------ D7 the pending map is never walked live
+    pending_walk_rule(repo, R, pend, [Q, erel, srel, crel])
+
 
 def _message_loops(fn: ast.AST) -> List[ast.AST]:
     """Loops of *fn* that drain a subscription: a for statement whose iterable is `<x>.subscribe(...)` or a local
@@ -1366,6 +1372,173 @@ def scan_rule(repo: Repo, R: Report, rf: ast.AST, wl: ast.AST, worker: Tuple[str
                         "for ... in " + norm(base)[:100],
                         "the scan walks the live channel map shared with publishers: a publish on a new channel from another thread raises RuntimeError (dictionary changed size during iteration) inside `for msg in sub`" + consequence,
                         getattr(base, "lineno", 0))
+
+
+MAP_MUTATORS = {"pop", "popitem", "clear", "setdefault", "update", "__setitem__", "__delitem__"}
+LAZY_WRAPPERS = {"enumerate", "zip", "iter", "reversed", "map", "filter"}
+CALLBACK_WALKERS = {"map", "filter", "min", "max", "reduce"}  # call Python code per element while they walk the iterable
+
+
+def pending_walk_rule(repo: Repo, R: Report, pend: str, rels: List[str]) -> None:
+    """D7: the pending map (job id -> Future) is written by enqueue() on the callers' threads while the master
+    thread reads it in run_forever; nothing but the GIL orders the two.  Single dict operations (store, `in`,
+    subscript, del, pop, one-call snapshots like list(d.items())) are atomic; a *traversal* that runs Python
+    code between two steps of the dict iterator (for statement, comprehension, map/filter/min/max with a
+    callback) is not: an enqueue (or a removal) landing inside it raises `RuntimeError: dictionary changed size
+    during iteration` in the traversing thread.  In run_forever that ends the master - no Future that is still
+    pending, jobs already running on workers included, is ever completed.  Necessary condition: every
+    traversal of the pending map is over a one-call snapshot, or holds a lock that every mutation of the map
+    holds as well (and does not itself change the map's size while walking it).
+
+    The map is found by role (*pend*: where enqueue registers the Future it returns); it is followed through
+    locals, `.items()/.keys()/.values()` views, lazy wrappers and parameters of the functions it is handed to."""
+    r_walk = R.rule("C15-D7-pending-map-walk", "every traversal of the pending-futures map (shared between enqueue on the callers' threads and the master loop) that runs Python code between two steps - for statement, comprehension, map/filter/min/max with a callback - is over a one-call snapshot (list/tuple/sorted/dict/.copy()) or under a lock that every mutation of the map holds; a live walk raises RuntimeError (dictionary changed size during iteration) when a job is enqueued meanwhile, the master loop dies and no pending Future ever completes", 1)
+    attr = pend.split(".")[-1]
+    dotted = "." in pend
+
+    scope: Dict[int, Tuple[object, ast.AST]] = {}
+    for rel in dict.fromkeys(rels):
+        m = repo.module(rel)
+        for node in m.defs.values():
+            if isinstance(node, FuncNode):
+                scope[id(node)] = (m, node)
+    map_params: Dict[int, Set[str]] = {}
+    view_params: Dict[int, Set[str]] = {}
+    bound_at: Dict[int, List[ast.Call]] = {}
+
+    def bindings_of(fn: ast.AST, nm: str) -> List[Optional[ast.AST]]:
+        return [v for st in walk_no_nested(fn) for n2, v in _bindings(st) if n2 == nm]
+
+    def is_map(e: Optional[ast.AST], fn: ast.AST, depth: int = 0) -> bool:
+        """*e* denotes the pending map object itself."""
+        if e is None or depth > 3:
+            return False
+        if isinstance(e, ast.Attribute):
+            return dotted and e.attr == attr and dotted_name(e) is not None
+        if isinstance(e, ast.Name):
+            if e.id in map_params.get(id(fn), set()):
+                return True
+            if not dotted and e.id == pend:
+                return True
+            vals = bindings_of(fn, e.id)
+            return bool(vals) and all(v is not None and is_map(v, fn, depth + 1) for v in vals)
+        return False
+
+    def live(e: Optional[ast.AST], fn: ast.AST, depth: int = 0) -> bool:
+        """Iterating *e* steps through the live map (not through a copy made in one C-level call)."""
+        if e is None or depth > 4:
+            return False
+        if is_map(e, fn):
+            return True
+        if isinstance(e, ast.Starred):
+            return live(e.value, fn, depth + 1)
+        if isinstance(e, ast.Name):
+            if e.id in view_params.get(id(fn), set()):
+                return True
+            vals = bindings_of(fn, e.id)
+            return bool(vals) and all(v is not None and live(v, fn, depth + 1) for v in vals)
+        if isinstance(e, ast.Call):
+            if isinstance(e.func, ast.Attribute) and e.func.attr in ("items", "keys", "values") and not e.args:
+                return is_map(e.func.value, fn)
+            d = (call_name(e) or "")
+            if d.split(".")[-1] in LAZY_WRAPPERS or d.startswith("itertools."):
+                return any(live(a, fn, depth + 1) for a in e.args)
+        return False
+
+    # parameters bound to the map / to a live view of it at a call site (followed into the callee, any module)
+    for _ in range(3):
+        for m, fn in list(scope.values()):
+            for c in calls_in(fn):
+                args = [(i, None, a) for i, a in enumerate(c.args)] + [(None, k.arg, k.value) for k in c.keywords if k.arg]
+                hits = [(i, k, a, is_map(a, fn)) for i, k, a in args if is_map(a, fn) or live(a, fn)]
+                if not hits:
+                    continue
+                for tm, tn in repo.resolve_call(m, c):  # type: ignore[arg-type]
+                    if not isinstance(tn, FuncNode):
+                        continue
+                    params = [a.arg for a in tn.args.posonlyargs + tn.args.args]
+                    off = 1 if params and params[0] in ("self", "cls") and (isinstance(c.func, ast.Attribute) or tn.name == "__init__") else 0
+                    for i, k, _a, whole in hits:
+                        p = k if k is not None else (params[i + off] if i + off < len(params) else None)
+                        if p is None or p not in params + [a.arg for a in tn.args.kwonlyargs]:
+                            continue
+                        if id(tn) not in scope:
+                            scope[id(tn)] = (tm, tn)
+                            repo.consulted.add(tm.rel)
+                        (map_params if whole else view_params).setdefault(id(tn), set()).add(p)
+                        if not any(c is x for x in bound_at.setdefault(id(tn), [])):
+                            bound_at[id(tn)].append(c)
+
+    def own_function(node: ast.AST) -> Optional[ast.AST]:
+        return next((a for a in ancestors(node) if isinstance(a, FuncNode)), None)
+
+    def with_locks(node: ast.AST) -> Set[str]:
+        out: Set[str] = set()
+        for a in ancestors(node):
+            if isinstance(a, (ast.With, ast.AsyncWith)):
+                for it in a.items:
+                    d = dotted_name(it.context_expr)
+                    if d:
+                        out.add(d.split(".")[-1])
+            elif isinstance(a, FuncNode):
+                break
+        return out
+
+    def locks_held(node: ast.AST, fn: ast.AST) -> Set[str]:
+        """Locks (by attribute name) held at *node*: the enclosing `with` statements, plus, where the function
+        works on the map through a parameter, those every call site binding that parameter holds."""
+        held = with_locks(node)
+        sites = bound_at.get(id(fn))
+        if sites:
+            common: Optional[Set[str]] = None
+            for c in sites:
+                h = with_locks(c)
+                common = h if common is None else (common & h)
+            held |= common or set()
+        return held
+
+    def mutation(n: ast.AST, fn: ast.AST) -> bool:
+        if isinstance(n, ast.Subscript) and isinstance(n.ctx, (ast.Store, ast.Del)):
+            return is_map(n.value, fn)
+        if isinstance(n, ast.Call) and isinstance(n.func, ast.Attribute) and n.func.attr in MAP_MUTATORS:
+            return is_map(n.func.value, fn)
+        return False
+
+    walks: List[Tuple[object, ast.AST, ast.AST, ast.AST]] = []  # (module, function, traversal node, iterated expression)
+    mutations: List[Tuple[ast.AST, ast.AST]] = []
+    for m, fn in scope.values():
+        for n in ast.walk(fn):
+            if own_function(n) is not fn and n is not fn:
+                continue  # belongs to a nested def: analysed as a function of its own
+            if fn.name != "__init__" and mutation(n, fn):  # type: ignore[attr-defined]
+                mutations.append((n, fn))
+            if isinstance(n, (ast.For, ast.AsyncFor, ast.comprehension)) and live(n.iter, fn):
+                walks.append((m, fn, n, n.iter))
+            elif isinstance(n, ast.Call) and (call_name(n) or "").split(".")[-1] in CALLBACK_WALKERS:
+                nm = (call_name(n) or "").split(".")[-1]
+                fargs = [a for a in n.args if not (isinstance(a, ast.Constant) and a.value is None)]
+                has_callback = kwarg(n, "key") is not None if nm in ("min", "max") else len(fargs) >= 2
+                it_args = n.args if nm in ("min", "max") else n.args[1:]
+                if has_callback and any(live(a, fn) for a in it_args):
+                    walks.append((m, fn, n, next(a for a in it_args if live(a, fn))))
+    common_locks: Optional[Set[str]] = None
+    for n, fn in mutations:
+        h = locks_held(n, fn)
+        common_locks = h if common_locks is None else (common_locks & h)
+    for m, fn, n, it in walks:
+        held = locks_held(n if not isinstance(n, ast.comprehension) else it, fn)
+        body = [x for st in (n.body + n.orelse) for x in ast.walk(st)] if isinstance(n, (ast.For, ast.AsyncFor)) else []
+        resizes = any(mutation(x, fn) and not (isinstance(x, ast.Subscript) and isinstance(x.ctx, ast.Store)) for x in body)
+        ok = bool(common_locks) and bool(held & common_locks) and not resizes  # type: ignore[operator]
+        text = ("for ... in " if not isinstance(n, ast.Call) else "") + norm(it if not isinstance(n, ast.Call) else n)[:100]
+        R.check(ok, r_walk, m.rel, qualname_of(fn), text,  # type: ignore[attr-defined]
+                f"the pending-futures map `{pend}` is traversed live (Python code runs between two steps of the dict iterator) while enqueue() stores into it from the callers' threads"
+                + (" and the loop body itself removes entries" if resizes else "")
+                + ": an enqueue that lands inside the traversal raises RuntimeError (dictionary changed size during iteration) in the traversing thread; "
+                "in the master loop that ends run_forever and no Future still pending - jobs already running included - is ever completed. "
+                "Traverse a one-call snapshot (list(d.items())) or hold one lock here and at every store/removal", getattr(it, "lineno", 0))
+    if not walks:
+        R.ok(r_walk, Q, "QueueSemantivaOrchestrator", f"`{pend}` is never traversed ({len(mutations)} single-step mutation(s), {len(scope)} function(s) looked at)", "", 0)
 
 
 def _annotation_reaches_publish(R: Report, rule, fn: ast.AST, pub: ast.Call, cname: str, ctx_key, jv: Optional[str], writes: List[ast.Call]) -> None:
